@@ -8,6 +8,10 @@
 (*   GenScales  generate-scales-info [--type T] [--encoding E]              *)
 (*                 [--max-scales N] src/info_fullres.json d                 *)
 (*   Vol        volume-to-precomputed VOL d                                 *)
+(*   Slices     slices-to-precomputed --input-orientation CODE DIRS... d    *)
+(*   HandInfo   the user writes d/info_fullres.json by hand (script-usage   *)
+(*              step 1: there is no --generate-info for slice stacks); no   *)
+(*              transform.json.  Performed by the harness, not a tool.      *)
 (*   Compute    compute-scales [--downscaling-method M] d                   *)
 (*   Convert    convert-chunks [--copy-info] src d                          *)
 (*   Stats      scale-stats d                                  (read-only)  *)
@@ -21,8 +25,9 @@
 (*              edited).  Performed by the harness, not a tool.             *)
 (*                                                                          *)
 (* Contents are ABSTRACT: a scale's decoded voxels are a content id -        *)
-(* "map" (the input volume mapped to the info's data type), "D<m>(<c>)" (c  *)
-(* downscaled once with method m), "absent".  Content ids denote VALUES:    *)
+(* "map" (the input volume mapped to the info's data type), "S<code>" (the  *)
+(* slice stack re-oriented from <code> to RAS+), "D<m>(<c>)" (c downscaled  *)
+(* once with method m), "absent".  Content ids denote VALUES:    *)
 (* a lossless re-encoding / widening conversion keeps the id.  The concrete *)
 (* voxel comparison happens in Trace_Pipeline on decoded arrays.            *)
 (*                                                                          *)
@@ -69,6 +74,7 @@ CONSTANTS Dirs,        \* directory names, e.g. {"A", "B"}
           Maxes,       \* subset of {"all", "two", "one"} (--max-scales)
           Methods,     \* subset of {"auto", "average", "majority", "stride"}
           Shardings,   \* subset of {"nosh", "s110"} (--sharding on GenInfo)
+          Codes,       \* input orientation codes of slices-to-precomputed, e.g. {"RPI"}
           CfgSpace,    \* set of input classes [perfect : BOOLEAN (data type needs no
                        \* adjustment), nall : 1..3 (scales generated without --max-scales)]
           MaxLen,      \* program length bound
@@ -91,7 +97,8 @@ NScales(mx, cf) == IF mx = "one" THEN 1
 \* ---- commands (uniform records so that they travel as JSON) -------------
 Cmd(op, d, src, type, enc, mx, m, sh, copy) ==
   [op |-> op, d |-> d, src |-> src, type |-> type, enc |-> enc, max |-> mx,
-   m |-> m, sh |-> sh, copy |-> copy]
+   m |-> m, sh |-> sh, copy |-> copy, code |-> U]
+CmdSlices(d, code) == [Cmd("Slices", d, U, U, U, U, U, U, U) EXCEPT !.code = code]
 
 Alphabet ==
   {Cmd("GenInfo", d, U, U, U, U, U, sh, U) : d \in Dirs, sh \in Shardings}
@@ -105,6 +112,8 @@ Alphabet ==
   \cup {Cmd("AllInOne", d, U, te[1], te[2], U, m, U, U) :
           d \in Dirs, te \in TypeEncs, m \in Methods}
   \cup {Cmd("Edit", d, U, U, U, U, U, sh, U) : d \in Dirs, sh \in Shardings}
+  \cup {CmdSlices(d, code) : d \in Dirs, code \in Codes}
+  \cup {Cmd("HandInfo", d, U, U, U, U, U, sh, U) : d \in Dirs, sh \in Shardings}
 
 \* ---- directory states ----------------------------------------------------
 NoInfo == [type |-> U, enc |-> U, n |-> 0, sh |-> U]
@@ -140,6 +149,16 @@ RunGenScales(c, D, cf) ==
 RunVol(c, D) ==
   IF D[c.d].info.n = 0 THEN Res(D, 1)
   ELSE Res([D EXCEPT ![c.d].chunks[1] = "map", ![c.d].mis = @ \ {1}], 0)
+
+\* same refusal / exit rules as Vol; the content is the re-oriented stack
+SliceContent(code) == "S" \o code
+RunSlices(c, D) ==
+  IF D[c.d].info.n = 0 THEN Res(D, 1)
+  ELSE Res([D EXCEPT ![c.d].chunks[1] = SliceContent(c.code), ![c.d].mis = @ \ {1}], 0)
+
+RunHandInfo(c, D) ==
+  IF D[c.d].fullres # "absent" THEN Res(D, 1)
+  ELSE Res([D EXCEPT ![c.d].fullres = c.sh], 0)
 
 RunCompute(c, D) ==
   LET ds == D[c.d] IN
@@ -197,6 +216,8 @@ Run(c, D, cf) ==
     [] c.op = "Stats"     -> RunStats(c, D)
     [] c.op = "AllInOne"  -> RunAllInOne(c, D, cf)
     [] c.op = "Edit"      -> RunEdit(c, D)
+    [] c.op = "Slices"    -> RunSlices(c, D)
+    [] c.op = "HandInfo"  -> RunHandInfo(c, D)
 
 Succ(e) == e = 0
 GenInfoOk(e) == e = 0 \/ e = 4
@@ -272,6 +293,8 @@ Complete(c, D) ==
     [] c.op = "AllInOne"  -> ds.info.n # 0 /\ \A i \in 1..ds.info.n : Readable(ds, i)
     [] c.op = "Stats"     -> TRUE
     [] c.op = "Edit"      -> ds.info.n # 0
+    [] c.op = "Slices"    -> ds.info.n # 0 /\ Readable(ds, 1)
+    [] c.op = "HandInfo"  -> ds.fullres # "absent"
 
 SuccessMeansComplete ==
   \A c \in Alphabet :
@@ -300,5 +323,5 @@ TypeOK ==
      /\ dirs[d].info.n \in 0..MaxScales
      /\ dirs[d].info.n = 0 => \A i \in Scales : dirs[d].chunks[i] = "absent"
      /\ \A i \in Scales : dirs[d].chunks[i] # "absent" => i <= dirs[d].info.n
-     /\ dirs[d].transform = (dirs[d].fullres # "absent")
+     /\ dirs[d].transform => (dirs[d].fullres # "absent")
 =============================================================================
